@@ -61,8 +61,8 @@ class Part:
 class AbsList:
     """a list of symbolic length whose j-th item is component `which` of frame base + j*step"""
 
-    def __init__(self, ex, n, base, step, which, uniform=None):
-        self.ex, self.n, self.base, self.step, self.which, self.uniform = ex, n, base, step, which, uniform
+    def __init__(self, ex, n, base, step, which, uniform=None, sel=None):
+        self.ex, self.n, self.base, self.step, self.which, self.uniform, self.sel = ex, n, base, step, which, uniform, sel
 
     def append(self, x):
         if self.uniform is not None or x is None:
@@ -72,6 +72,8 @@ class AbsList:
             self.ex.require(f"read:appended-entry-is-a-`{self.which}`-of-a-frame", z3.BoolVal(ok))
             if ok:
                 self.ex.require(f"read:`{self.which}`-frames-are-appended-in-file-order(next=position+count*stride)", x.k == self.base + self.n * self.step)
+                same = (x.sel is None and self.sel is None) or (isinstance(x.sel, tuple) and self.sel is not None and len(x.sel) == 2 and x.sel[0] is self.sel and x.sel[1] == slice(None))
+                self.ex.require(f"read:`{self.which}`-holds-" + ("the-rows-of-atom_indices(all-columns)" if self.sel is not None else "the-whole-frame-entry"), z3.BoolVal(same))
         self.n = self.n + 1
 
     def sym_iter(self, interp):
@@ -156,6 +158,7 @@ def read(ctx, case):
     ex = ctx.ex
     n = ctx.int("n_frames") if mode != "rest" else None
     stride = 2 if mode == "n-stride2" else None
+    atoms = "<atom_indices>" if mode == "n-atoms" else None
     s = stride or 1
     if n is not None:
         ctx.assume(n >= 1)
@@ -175,7 +178,7 @@ def read(ctx, case):
         h.fields["_frame_index"] = SInt(z3.Int(core.fresh_name("frame_index")))
         for nm in lists:
             uni = (None,) if (fmt == "mdcrd" and nm == "boxes") else None
-            env.vars[nm] = AbsList(ex, C.t, p.t, s, nm, uniform=uni)
+            env.vars[nm] = AbsList(ex, C.t, p.t, s, nm, uniform=uni, sel=atoms if nm == lists[0] else None)
         return {"entry": False}
 
     def invariant(interp, env, g):
@@ -205,6 +208,8 @@ def read(ctx, case):
         kw["n_frames"] = n
     if stride:
         kw["stride"] = stride
+    if atoms:
+        kw["atom_indices"] = atoms
     out = ctx.call_method(h, "read", **kw)
     ctx.ensure("no-exception", not out.raised)
     if out.raised:
@@ -234,6 +239,9 @@ def read(ctx, case):
 
 READ_CASES = [(f, m) for f in READERS for m in ("n", "rest", "n-stride2")]
 contract("C18", "mdtraj/formats/", "read(xyz|lammpstrj|mdcrd)", cases=READ_CASES, replay="cursor:text", covers=["returned"], max_paths=200)(read)
+# the same contract decides the partial-loading clauses of C02 for these readers: n_frames, stride, atom_indices (rows of the coordinates only)
+contract("C02", "mdtraj/formats/", "read(xyz|lammpstrj|mdcrd)", cases=[(f, m) for f in READERS for m in ("n", "rest", "n-stride2", "n-atoms")], replay="reader", covers=["returned"],
+         max_paths=200)(read)
 
 
 def seek(ctx, case):
